@@ -427,6 +427,31 @@ class IArr:
         ln = sym.smax(hi - lo, 0)
         return lo, ln
 
+    def _reverse_axes(self, idx):
+        """x[::-1] on some axes: modelled as a reversed *copy* (numpy gives a view; writes through it are not modelled)."""
+        t = list(idx if isinstance(idx, tuple) else (idx,))
+        rev = [k for k, i in enumerate(t) if isinstance(i, slice) and i.step == -1 and i.start is None and i.stop is None]
+        if not rev:
+            return None
+        if any(i is Ellipsis for i in t):
+            k = t.index(Ellipsis)
+            t = t[:k] + [slice(None)] * (len(self.vshape) - (len(t) - 1)) + t[k + 1:]
+            rev = [k for k, i in enumerate(t) if isinstance(i, slice) and i.step == -1 and i.start is None and i.stop is None]
+        t2 = [slice(None) if k in rev else i for k, i in enumerate(t)]
+        if any(not (isinstance(i, slice)) for i in t2):
+            raise OutOfReach("reversed slice combined with integer indices")
+        base = self.getitem(tuple(t2)) if any(not (i.start is None and i.stop is None) for i in t2) else self
+        snap = base._snapshot()
+        shp = list(base.vshape)
+
+        def fn(vi):
+            vi = list(vi)
+            for k in rev:
+                vi[k] = shp[k] - 1 - vi[k]
+            return snap(tuple(vi))
+        cur().note("x[::-1] modelled as a reversed copy")
+        return IArr.from_fn(shp, fn, quat=base.quat, cplx=base.cplx, hcell=base.hcell)
+
     def _index(self, idx):
         """Apply a basic index; returns ('scalar', vidx) or ('view', IArr)."""
         if not isinstance(idx, tuple):
@@ -525,6 +550,11 @@ class IArr:
     def getitem(self, idx):
         if self._has_list(idx):
             return self._gather(idx)
+        t = idx if isinstance(idx, tuple) else (idx,)
+        if any(isinstance(i, slice) and i.step == -1 for i in t):
+            r = self._reverse_axes(idx)
+            if r is not None:
+                return r
         kind, r = self._index(idx)
         if kind == "scalar":
             return self.at(*r)
@@ -801,6 +831,65 @@ class IArr:
             return self.map(lambda a: a * a)
         raise OutOfReach("power")
 
+    # element-wise comparisons give boolean arrays (cells are bool / SBool)
+    def _cmp(self, o, f):
+        if self.quat or self.cplx or self.hcell:
+            raise OutOfReach("comparison of non-real arrays")
+        r = self.zip(_lift_operand(o), f)
+        r.boolean = True
+        return r
+
+    def __gt__(self, o):
+        return self._cmp(o, lambda a, b: a > b)
+
+    def __ge__(self, o):
+        return self._cmp(o, lambda a, b: a >= b)
+
+    def __lt__(self, o):
+        return self._cmp(o, lambda a, b: a < b)
+
+    def __le__(self, o):
+        return self._cmp(o, lambda a, b: a <= b)
+
+    def count_true(self):
+        """np.sum of a boolean array: the number of true cells (library axiom).  For symbolic shapes the
+        count is a fresh integer recorded with the array so that contracts can relate it to the predicate."""
+        if all(isinstance(d, int) for d in self.vshape):
+            tot = 0
+            for _, v in self.concrete_entries():
+                tot = tot + ite(v, 1, 0)
+            return tot
+        c = cur()
+        n = SInt.var(c.fresh_name("count"))
+        total = 1
+        for d in self.vshape:
+            total = total * d
+        c.assume(sand(n >= 0, n <= total))
+        c.ghost.setdefault("counts", []).append((n, self._snapshot(), list(self.vshape)))
+        return n
+
+    def any_true(self):
+        if all(isinstance(d, int) for d in self.vshape):
+            return sor(*[v for _, v in self.concrete_entries()]) if self.concrete_entries() else False
+        c = cur()
+        e = SBool(z3.Bool(c.fresh_name("any")))
+        w = fresh_indices(c, self.vshape, "anyw")
+        snap = self._snapshot()
+        c.assume(sor(sym.snot(e), snap(w)))                      # e  =>  the witness satisfies the predicate
+        c.ghost.setdefault("anys", []).append((e, snap, list(self.vshape)))
+        return e
+
+    def prod_all(self):
+        if all(isinstance(d, int) for d in self.vshape):
+            tot = Fraction(1)
+            for _, v in self.concrete_entries():
+                tot = tot * v
+            return tot
+        c = cur()
+        p_ = SReal.var(c.fresh_name("prod"))
+        c.ghost.setdefault("prods", []).append((p_, self._snapshot(), list(self.vshape)))
+        return p_
+
     def __matmul__(self, o):
         if self.quat or (isinstance(o, IArr) and o.quat):
             raise Raised("TypeError", "numpy '@' on quaternion arrays is not the quaternion matrix product")
@@ -911,6 +1000,8 @@ class IArr:
         return self.map(lambda x: abs(x))
 
     def _np_sum(self, args, axis=None, **kw):
+        if axis is None and getattr(self, "boolean", False):
+            return self.count_true()
         if axis is None:
             return self.sum()
         if axis == -1 or axis == len(self.vshape) - 1:
@@ -957,8 +1048,8 @@ class IArr:
             if not vals:
                 raise Raised("ValueError", "max of an empty array")
             return sym.smax(*vals)
-        if len(self.vshape) != 1:
-            raise OutOfReach("max over a symbolic multi-dimensional array")
+        if len(self.vshape) != 1 or not getattr(self, "sorted_desc", False):
+            return self._extreme(True)
         # maximum of a vector of symbolic length: M >= every entry (instantiated at 0) and M is attained
         c = cur()
         n = self.vshape[0]
@@ -1146,6 +1237,13 @@ def input_array(name, shape, quat=False, cplx=False):
         re, im = input_store(name + "_re", tuple(shape)), input_store(name + "_im", tuple(shape))
         return IArr.from_fn(list(shape), lambda vi: CScal(re.cell(vi), im.cell(vi)), cplx=True)
     return IArr.whole(input_store(name, tuple(shape)))
+
+
+def instantiate_anys(ctx, idx):
+    """For every np.any taken on this path: not any  =>  the predicate fails at idx."""
+    for e, snap, shape in ctx.ghost.get("anys", []):
+        if len(shape) == len(idx):
+            ctx.assume(sor(e, sym.snot(snap(tuple(idx)))))
 
 
 def instantiate_bounds(ctx, idx):
